@@ -15,7 +15,7 @@ CHECKS = {
     "C01": dict(
         category="exploration",
         technique="deterministic simulation: seeded operation histories and scoped programs with injected failures vs stack-of-maps model",
-        text="Seeded search over (a) operation histories on a real State (every registry and entry-API operation, explicit scope push/pop, with_inner_state and holding with closures that succeed or fail, nested) in lock-step with a Vec<BTreeMap> model: every return value and, after every operation, the content of every scope level must agree; (b) generated configurations whose probe leaves run such scripts, so that scopes are pushed and popped by the real Scope component, fault-free or with one injected failure that forces scope exits. Sampling, no exhaustive bound.",
+        text="Seeded search over (a) operation histories on a real State (every registry and entry-API operation, explicit scope push/pop, with_inner_state and holding with closures that succeed or fail, nested) in lock-step with a Vec<BTreeMap> model: every return value and, after every operation, the content of every scope level must agree (the histories include reads/writes while a guard is alive and multi-borrows with write-through); (b) generated configurations whose probe leaves run such scripts, so that scopes are pushed and popped by the real Scope component, fault-free or with one injected failure that forces scope exits. Sampling, no exhaustive bound.",
         note="Oracle is the stack-of-maps model in sim/src/engine/ops.rs. Apart from failure-forced scope exits the property contains no schedule or fault; most of this check is a reference-model history check driven by the simulator's seeded generator.",
         design_ref="5/C01",
     ),
@@ -38,7 +38,7 @@ CHECKS = {
 CHECKS["C10"] = dict(
     category="exploration",
     technique="deterministic simulation: seeded programs with real conditions over probe-controlled state vs reference interpreter; loop hook-free pass/test counting; seeded frequency test",
-    text="Seeded search over generated configurations whose while/if conditions are the real LessThanN, EveryN, ChangeOf (both checkers), OptimumReached and And/Or/Not over state that probe leaves rewrite from small value ranges; every evaluation's truth value, the progress value after every less-than-n test and the exactly-once evaluation of every operand are compared event for event with the reference interpreter. Iteration-bounded loops (n in 0..200, nested in scopes, inner loops in their own scope): exactly n passes, n+1 tests, progress k/n. RandomChance: exact for p in {0,1}, otherwise frequency over >= 20000 seeded draws within 6 sigma + 0.005.",
+    text="Seeded search over generated configurations whose while/if conditions are the real LessThanN, EveryN, ChangeOf (both checkers), OptimumReached and And/Or/Not over state that probe leaves rewrite from small value ranges; (also inside scopes with their own, still empty, best-individual memory) every evaluation's truth value, the progress value after every less-than-n test and the exactly-once evaluation of every operand are compared event for event with the reference interpreter. Iteration-bounded loops (n in 0..200, nested in scopes, inner loops in their own scope): exactly n passes, n+1 tests, progress k/n. RandomChance: exact for p in {0,1}, otherwise frequency over >= 20000 seeded draws within 6 sigma + 0.005.",
     note="Oracle: reference interpreter in sim/src/engine/program.rs; change-of is modelled with one memory per observed lens and 'first evaluation reports a change'. The probabilistic clause is a statistical test, not a proof; its tolerance keeps the false-alarm probability below 1e-8 per case.",
     design_ref="5/C10",
 )
@@ -51,61 +51,62 @@ CHECKS["C15"] = dict(
     design_ref="5/C15",
 )
 
+_TW_FAULTS = " Swarm-style fault mix shared by the template batches: 15 % of the runs start from the state of a complete earlier run of the same configuration (on the same or on a sibling instance of the same size), 10 % run the template as a nested heuristic one or two scopes deep inside a restart loop, 10 % run through a clone of the configuration."
 _TW_NOTE = "Trusts the harness problems' pure reference objective and the cfg(mahf_verif) step/loop hooks in Block::execute / Loop::execute as the observation points. The optimisation problems are small instrumented stubs; every mahf component runs unmodified. Sampling over (template, parameters, instance, seed); no exhaustive bound."
 
 CHECKS["C05"] = dict(
     category="exploration",
     technique="deterministic simulation: every shipped template stepped under a seeded generator, audit of every memory after every component execution; parallel evaluator on a simulated worker pool under seeded schedules",
-    text="Seeded search over all 21 shipped templates (plus two archive assemblies) with swarm-style valid parameters, instances with and without penalty regions (+inf), sequential evaluator; after EVERY child execution of every sequential block at every nesting level every evaluated individual in the population stack, best-so-far, elitist archive, personal/global bests and molecule memories must carry exactly F(solution). A second batch repeats the audit while the objectives are written by the simulated workers of evaluate::Parallel under seeded schedules. The individual-level clause is checked by seeded histories of Individual operations (construction, evaluation, every mutable access, clone / clone_from through Vec, slice and Option, population helpers) against an (solution, Option<objective>) model; assemblies of de::de / ga::ga run the shipped operators no template wires in by default.",
+    text="Seeded search over all 21 shipped templates (plus two archive assemblies) with swarm-style valid parameters, instances with and without penalty regions (+inf), sequential evaluator; after EVERY child execution of every sequential block at every nesting level every evaluated individual in the population stack, best-so-far, elitist archive, personal/global bests and molecule memories must carry exactly F(solution). A second batch repeats the audit while the objectives are written by the simulated workers of evaluate::Parallel under seeded schedules. The individual-level clause is checked by seeded histories of Individual operations (construction, evaluation, every mutable access, clone / clone_from through Vec, slice and Option, population helpers) against an (solution, Option<objective>) model; assemblies of de::de / ga::ga run the shipped operators no template wires in by default; an assembly evaluates prepared populations (empty, runs of equal neighbours, evaluated next to unevaluated)." + _TW_FAULTS,
     note=_TW_NOTE,
     design_ref="5/C05",
 )
 CHECKS["C06"] = dict(
     category="exploration",
     technique="deterministic simulation: call-logging objective vs counter at every evaluation step; missing/wrong evaluator identifier as injected fault; simulated worker pool schedules for the parallel evaluator",
-    text="At every PopulationEvaluator step of every template run: one objective call per individual of the pre-step population (multiset equality), order and solutions unchanged, all evaluated, counter advanced by the population size (0 for empty population or empty stack); at every step of any component: counter delta == objective calls; at run end: reported evaluations == objective calls and the evaluation budget is overshot by less than the last pass. Faults: evaluator not registered / registered under another identifier => Err, zero objective calls, zero executed steps (template batch and a dedicated identifier batch over Global/A/B). The parallel evaluator runs on 1..8 simulated workers under seeded random, sticky and PCT schedules with the same monitors.",
+    text="At every PopulationEvaluator step of every template run: one objective call per individual of the pre-step population (multiset equality), order and solutions unchanged, all evaluated, counter advanced by the population size (0 for empty population or empty stack); at every step of any component: counter delta == objective calls; at run end: reported evaluations == objective calls and the evaluation budget is overshot by less than the last pass. Faults: evaluator not registered / registered under another identifier => Err, zero objective calls, zero executed steps (template batch and a dedicated identifier batch over Global/A/B). The parallel evaluator runs on 1..8 simulated workers under seeded random, sticky and PCT schedules with the same monitors; a panic inside the pool that the sequential run does not have is a violation. Evaluation steps also run on prepared populations (empty, duplicates, evaluated next to unevaluated) and after a scope whose init hook registered a surrogate evaluator (the caller's evaluator must be back in force)." + _TW_FAULTS,
     note=_TW_NOTE + " rayon's scheduler is replaced by the simulated pool; interleavings at objective-call and queue granularity.",
     design_ref="5/C06",
 )
 CHECKS["C07"] = dict(
     category="exploration",
     technique="deterministic simulation: monotone/true-best monitors at every update step, run-end minimum vs objective call log, archive multiset model",
-    text="At every BestIndividualUpdate step: exists iff existed or population non-empty, <= min(population), never worse than before, replaced only by a strictly better member of the population. At the end of every template run: reported best == minimum of the objective-call log. Elitist archive (ga/es assembled with ElitistArchiveUpdate(k), k in {0,1,2,5,20}, and ElitistArchiveIntoPopulation): archived values are the k smallest of (previous archive + population shown), members were shown, re-insertion leaves count max(before,1) and changes nothing else. Penalty regions supply ties at +inf.",
+    text="At every BestIndividualUpdate step: exists iff existed or population non-empty, <= min(population), never worse than before, replaced only by a strictly better member of the population. At the end of every template run: reported best == minimum of the objective-call log. Elitist archive (ga/es assembled with ElitistArchiveUpdate(k), k in {0,1,2,5,20}, and ElitistArchiveIntoPopulation): archived values are the k smallest of (previous archive + population shown), members were shown, re-insertion leaves count max(before,1) and changes nothing else. Penalty regions supply ties at +inf, a step objective supplies ties between 0.0 and -0.0. Nested runs put an outer best-individual update after a scope in which the nested heuristic evaluated." + _TW_FAULTS,
     note=_TW_NOTE + " Known finding real_fa (see known_findings.json) is reported as KNOWN-FINDING.",
     design_ref="5/C07",
 )
 CHECKS["C08"] = dict(
     category="exploration",
     technique="deterministic simulation: rayon replaced by a shuttle-scheduled simulated worker pool; seeded random/sticky/PCT schedules; digest comparison sequential vs parallel vs clone; par_experiment under schedules",
-    text="Same workload run with the sequential evaluator, through a cloned configuration, and with evaluate::Parallel on 1/2/3/4/8 simulated workers under several seeded schedules each (hand-out order of individuals is part of the schedule): the digest (population stack bits, best, counters, decoded log, next word of the generator) must be identical. Generators: children are a function of the seed, different seeds differ, children keep the backend, optimize_with keeps a supplied non-default generator and is repeatable. par_experiment (<= 6 runs x <= 3 problems) on the simulated pool: every (run, problem) digest and every decoded log file equals the run executed alone with Random::new(run); file set exact.",
+    text="Same workload run with the sequential evaluator, through a cloned configuration, and with evaluate::Parallel on 1/2/3/4/8 simulated workers under several seeded schedules each (hand-out order of individuals is part of the schedule): the digest (population stack bits, best, counters, decoded log, next word of the generator) must be identical. Generators: children are a function of the seed, different seeds differ, children keep the backend, optimize_with keeps a supplied non-default generator and is repeatable. par_experiment (<= 6 runs x <= 3 problems) on the simulated pool: every (run, problem) digest and every decoded log file equals the run executed alone with Random::new(run) (or with the generator the setup function supplies); file set exact. Problems of one experiment have different domains; 3 % of the sequential-vs-parallel cases are large initialisations (>= 2^14 elements).",
     note="rayon's work-stealing scheduler and indicatif are stubs (shims/); a bug inside rayon is out of reach, a mahf change that makes results depend on which worker runs what, in what order, or how runs overlap is in reach. Interleavings are decided by a seeded scheduler at objective-call, queue and I/O granularity; a schedule is replayed from its seed and identified by the hash of the recorded task sequence.",
     design_ref="5/C08",
 )
 CHECKS["C16"] = dict(
     category="exploration",
     technique="deterministic simulation: all 21 templates x swarm-style valid parameters x seeds run to completion under a seeded generator with extreme-draw buggify; loop hook checks stack balance per pass",
-    text="Every shipped template constructor with parameters drawn from its documented valid ranges including boundary values (population 1-2, tournament = population, probabilities 0/1, y in {1,2}, tiny v_max, distance ratios up to 1e12), n in 0..120 iterations, no failing fault: the run returns Ok without panic, the iteration counter equals n with n+1 condition tests, the population stack has the same height at the end of every pass of every loop as at its beginning, one population at the end, population size after each pass within the template's prescription. A second batch forces one word of the random stream to 0 or u64::MAX (rare legal draws).",
+    text="Every shipped template constructor with parameters drawn from its documented valid ranges including boundary values (population 1-2, tournament = population, probabilities 0/1, y in {1,2}, tiny v_max, distance ratios up to 1e12), n in 0..120 iterations, no failing fault: the run returns Ok without panic, the iteration counter equals n with n+1 condition tests, the population stack has the same height at the end of every pass of every loop as at its beginning, one population at the end, population size after each pass within the template's prescription. A second batch forces one word of the random stream to 0 or u64::MAX (rare legal draws); a third runs the templates with evaluate::Parallel on the simulated worker pool under seeded schedules (run-end and per-pass monitors, and panics the sequential run does not have)." + _TW_FAULTS,
     note=_TW_NOTE,
     design_ref="5/C16",
 )
 CHECKS["C18"] = dict(
     category="exploration",
     technique="deterministic simulation: swarm-state monitors after every step of seeded PSO runs",
-    text="After every ParticleVelocitiesUpdate: |v| <= v_max, x_after == x_before + v_after bit-exactly, v_after inside the interval the update rule allows for the inertia weight STORED before the step (an equality when c1 = c2 = 0, which decides that the stored weight is the one used); after the linear mapping: weight == start + (end-start)*progress exactly; personal best == best value the particle was ever evaluated at and never worse; global best == min personal best after every swarm-update block and loop pass; velocities, personal bests and particles have equal length after every step.",
+    text="After every ParticleVelocitiesUpdate: |v| <= v_max, x_after == x_before + v_after bit-exactly, v_after inside the interval the update rule allows for the inertia weight STORED before the step (an equality when c1 = c2 = 0, which decides that the stored weight is the one used); after the linear mapping: weight == start + (end-start)*progress exactly; personal best == best value the particle was ever evaluated at and never worse; global best == min personal best after every swarm-update block and loop pass; velocities, personal bests and particles have equal length after every step. The progress is checked independently (iterations / n), also under the compound condition evaluations(e) | iterations(n). Fault: a foreign component removes or duplicates a particle between two swarm updates - the next update must refuse." + _TW_FAULTS,
     note=_TW_NOTE,
     design_ref="5/C18",
 )
 CHECKS["C19"] = dict(
     category="exploration",
     technique="deterministic simulation: tour/pheromone monitors after every generation and update along seeded ACO runs (reachable pheromone states), extreme-draw buggify",
-    text="Both ACO templates over 2..8 cities, distance ratios up to 1e12, 0..8 ants, alpha,beta in [0,5], rho in [0,1], up to 200 iterations so that long-evaporated trails are reached: after generation ants+1 tours, each a permutation of all cities starting at 0, unevaluated; after each update the matrix equals (1-rho)*before + deposits recomputed from the rewarded tours on exactly the consecutive-city edges in both directions (rel. tol. 1e-9), symmetric, finite, non-negative, max-min: within bounds.",
+    text="Both ACO templates over 2..8 cities, distance ratios up to 1e12, 0..8 ants, alpha,beta in [0,5], rho in [0,1], up to 200 iterations so that long-evaporated trails are reached: after generation ants+1 tours, each a permutation of all cities starting at 0, unevaluated; after each update the matrix equals (1-rho)*before + deposits recomputed from the rewarded tours on exactly the consecutive-city edges in both directions (purely relative tolerance 1e-9, tour lengths taken from the instance at hand), symmetric, finite, non-negative, max-min: within bounds. Instances include asymmetric ones and units of length 1e-17..1e17." + _TW_FAULTS,
     note=_TW_NOTE,
     design_ref="5/C19",
 )
 CHECKS["C20"] = dict(
     category="exploration",
     technique="deterministic simulation: energy ledger and (individual, molecule) pairing model around every reaction along seeded CRO runs",
-    text="CRO template runs over its nine parameters (buffer 0, initial KE 0, alpha 0, large beta, mole_coll 0/1 included), up to 300 iterations; around every elementary-reaction update: sum of objective values + kinetic energies + buffer unchanged (1e-9 relative), no negative kinetic energy or buffer, one molecule record per individual, pairs not involved in the reaction unchanged and in order, exactly two populations consumed. All four reactions are reached in accepted and rejected outcomes (probes). A second batch executes single reactions on hand-built three-population stacks (energies on grids around the acceptance threshold, equal individuals, second reactant before the first, empty buffer).",
+    text="CRO template runs over its nine parameters (buffer 0, initial KE 0, alpha 0, large beta, mole_coll 0/1 included), up to 300 iterations; around every elementary-reaction update: sum of objective values + kinetic energies + buffer unchanged (1e-9 relative), no negative kinetic energy or buffer, one molecule record per individual, pairs not involved in the reaction unchanged and in order, exactly two populations consumed. All four reactions are reached in accepted and rejected outcomes (probes). A second batch executes single reactions on hand-built three-population stacks (energies on grids around the acceptance threshold, negative objective values, equal individuals, same solution with different objective values, second reactant before the first, empty buffer)." + _TW_FAULTS,
     note=_TW_NOTE,
     design_ref="5/C20",
 )
